@@ -75,6 +75,10 @@ Next == IF d > Len(Docs) THEN UNCHANGED <<d, s>>
         ELSE IF s >= Len(Docs[d].segs) THEN d' = d + 1 /\ s' = 0
         ELSE s' = s + 1 /\ d' = d
 Spec == Init /\ [][Next]_<<d, s>>
+(* segment ss of document dd and the one after it lie between an ST and its SE *)
+InSet(dd, ss) == /\ \E x \in 1..ss : /\ FN[Docs[dd].segs[x].node].id = "ST"
+                                       /\ \A y \in (x + 1)..ss : FN[Docs[dd].segs[y].node].id \notin {"ST", "SE"}
+                 /\ ss < Len(Docs[dd].segs)
 PlansAt(dd, ss) ==
   LET sg == Docs[dd].segs[ss]
       n == sg.node
@@ -93,7 +97,9 @@ PlansAt(dd, ss) ==
               ei \in {x \in 1..Len(eles) : eles[x].k = "c" /\ sg.present[x] /\ eles[x].usage # "N"}}
      \cup {[seg |-> ss, ele |-> Len(eles) + 1, sub |-> 0, kind |-> "TooManyElements", local |-> TRUE]}
      \cup {[seg |-> ss, ele |-> 0, sub |-> j, kind |-> "SyntaxBroken", local |-> TRUE] : j \in 1..Len(FN[n].syntax)}
-     \cup {[seg |-> ss, ele |-> 0, sub |-> 0, kind |-> "UnknownSeg", local |-> FALSE]}
+     \* an unknown segment inside a set is not matched at all and the walker stays where it was: a local fault (outside a set the
+     \* interchange-level "segment outside a transaction set" error is reported as well)
+     \cup {[seg |-> ss, ele |-> 0, sub |-> 0, kind |-> "UnknownSeg", local |-> InSet(dd, ss)]}
      \* a copy of the nearest earlier body segment of the same set whose identifier cannot occur from here on (sub carries its index)
      \cup (LET st == CHOOSE x \in 0..ss : (x = 0 \/ FN[Docs[dd].segs[x].node].id = "ST")
                                           /\ \A y \in (x + 1)..ss : FN[Docs[dd].segs[y].node].id # "ST"
@@ -104,7 +110,7 @@ PlansAt(dd, ss) ==
            IN IF st = 0 \/ ~inset \/ cand = {} THEN {}
               ELSE {[seg |-> ss, ele |-> 0, sub |-> CHOOSE x \in cand : \A y \in cand : y <= x, kind |-> "OutOfPlaceSeg", local |-> TRUE]})
      \cup (IF FN[n].usage = "R" /\ FN[FN[n].parent].kids[1] # n
-           THEN {[seg |-> ss, ele |-> 0, sub |-> 0, kind |-> "MissingRequiredSeg", local |-> FALSE]} ELSE {})
+           THEN {[seg |-> ss, ele |-> 0, sub |-> 0, kind |-> "MissingRequiredSeg", local |-> TRUE]} ELSE {})
      \* a whole instance of a required loop removed (at its first segment; wrappers are no loops of the document)
      \cup (IF FN[FN[n].parent].kids[1] = n /\ FN[FN[n].parent].usage = "R" /\ ~FN[FN[n].parent].wrapper
            THEN {[seg |-> ss, ele |-> 0, sub |-> 0, kind |-> "MissingRequiredLoop", local |-> FALSE]} ELSE {})
